@@ -9,7 +9,7 @@ CFG = dict(
     mix=dict(create=5, destroynow=3, destroy=2, update=1, cleararch=1, lock=1, unlock=1, query=2, dump=1, parjob=1),
     corpus=[x for x in "C01".split(",")],
     n_quick=500, n_thorough=6000, len=(8, 45),
-    gen=dict(lock_bias=0.2, max_threads=4),
+    gen=dict(lock_bias=0.2, max_threads=4, malformed=0.15),
     exhaustive=wc.stress_parallel_creates,
     impl_only=wc.stress_impl_only,
     what="id table, free list, validity of every handle ever issued after every step (dump), locked creation from several scripted dispatcher threads",
